@@ -8,7 +8,7 @@ import RV.Base.Proto
     reset <graph|cg|cgi|ds|dsu> <0|1>              -> ok
     init s p o g | reg g                            -> ok
     insertdata n q… | deletedata n q… | deletewhere n q…        (q = s p o g)
-    modify W nd q… ni q… nu g… nn g… nw q… F [v ne c]           (nd, ni: 0 = clause absent, else count+1)
+    modify W nd q… ni q… nu g… nn g… nw q… M F [v ne c]      M = 0 | 1 n q… (UNION branch) | 2 n v… (sub-select projection)           (nd, ni: 0 = clause absent, else count+1)
     clear|drop S DEFAULT|NAMED|ALL|GRAPH g
     add|move|copy S src dst                          -> ok | error | skipped   (skipped = request already failed)
     tabrel b r n | tabns b r ns | tabpn ns l n        -> ok   (what written names denote; harness-owned)
@@ -108,6 +108,16 @@ def parseModify (ns : List Nat) : Option Modify := do
           match rest with
           | nw :: rest =>
             let (wq, rest) ← takeQuads nw rest
+            let (wm, rest) ← (match rest with
+              | 0 :: rest => some (WMode.plain, rest)
+              | 1 :: n2 :: rest => do
+                let (q2, rest) ← takeQuads n2 rest
+                let p2 ← q2.mapM qPat?
+                pure (WMode.union (groupBlocks p2), rest)
+              | 2 :: nv :: rest => do
+                let (vs, rest) ← takeN nv rest
+                if vs.all (fun v => 40 ≤ v && v < 50) then pure (WMode.proj vs, rest) else none
+              | _ => none)
             let del ← dq.mapM qTpl?
             let ins ← iq.mapM qTpl?
             let wh ← wq.mapM qPat?
@@ -120,7 +130,7 @@ def parseModify (ns : List Nat) : Option Modify := do
               | _ => none)
             pure { withG := withG, del := if nd = 0 then none else some del,
                    ins := if ni = 0 then none else some ins, using_ := us, named := nm,
-                   where_ := groupBlocks wh, flt := flt }
+                   where_ := groupBlocks wh, flt := flt, wmode := wm }
           | _ => none
         | _ => none
       | _ => none
